@@ -456,6 +456,24 @@ class Program:
         fn = node.func
         fname = ast.unparse(fn)
         args = node.args
+        if isinstance(fn, ast.Attribute) and fn.attr == "format" and not any(isinstance(a, ast.Starred) for a in args):
+            # "<template>".format(consts, name=const, **CONST_DICT) on a constant template
+            tmpl = self.fold(fn.value, mi, ci)
+            if isinstance(tmpl, str):
+                pos = [self.fold(a, mi, ci) for a in args]
+                kw = {}
+                for k in node.keywords:
+                    v = self.fold(k.value, mi, ci)
+                    if k.arg is None:
+                        if not isinstance(v, dict):
+                            raise NotConst(fname)
+                        kw.update(v)
+                    else:
+                        kw[k.arg] = v
+                try:
+                    return tmpl.format(*pos, **kw)
+                except Exception:
+                    raise NotConst(fname) from None
         if node.keywords and fname not in ("UUID", "uuid.UUID"):
             raise NotConst(fname)
         if fname in ("UUID", "uuid.UUID"):
